@@ -37,6 +37,22 @@ def classify(p, b, claims):
                 'read of %s at node %d: actual writer %d not among the claimed definitions %s' % (nm, n, writer, sorted(codes)))
     if b[0] == 'defin':
         _, f, s, nm = b
+        par = mpsig.parents(p)
+        for k, sec, q in mpsig.path(p, s, par) :
+            if k == 'try' and sec == 'finally':
+                hnodes = []
+                todo = [x for h in p['nodes'][q - 1]['handlers'] for x in h['body']]
+                while todo:
+                    m = todo.pop()
+                    hnodes.append(m)
+                    dd = p['nodes'][m - 1]
+                    todo += dd['body'] + dd['orelse'] + dd['final'] + [x for hh in dd['handlers'] for x in hh['body']]
+                if any(nm in p['nodes'][m - 1]['tgt'] for m in hnodes) and any(
+                        p['nodes'][m - 1]['kind'] in ('return', 'break', 'continue') or p['nodes'][m - 1].get('form') == 'return' for m in hnodes):
+                    return ('c06:defin:jump-in-handler-not-routed-through-finally',
+                            '%s is bound when statement %d in the finally block of try %d is entered after a jump out of an except '
+                            'handler that assigned it, but is not in DEFINED_VARS_IN: the CFG has no edge from a jump in a handler to '
+                            'the finally block (finding C05 edge:*@try.handler->try.finally)' % (nm, s, q))
         return ('c06:defin:%s' % mpsig.kind(p, s), '%s is bound on entry of statement %d but not in DEFINED_VARS_IN' % (nm, s))
     return ('c06:%s' % b[0], 'the reported solution is not a fixed point of the transfer equations (function %s)' % b[1:])
 
